@@ -20,9 +20,9 @@ import (
 // original order when iterated, each with its original index, and lookup by index returns the
 // same item.
 //
-// Items: real version-3 transactions parsed from JSON that differ in nonce and timestamp (parsing
-// does not verify signatures, so no signing is needed) and real receipts that differ in stepUsed
-// (receipt versions 1 and 2). Oracle: the harness keeps the slice the list was built from;
+// Items: real version-3 transactions that differ in their nonce (built from the binary form of one
+// template; parsing does not verify signatures, so no signing is needed) and real receipts that
+// differ in stepUsed (receipt versions 1 and 2). Oracle: the harness keeps the slice the list was built from;
 // iteration must yield exactly n items, the i-th being item i (same serialized bytes / id) and,
 // for transactions, reporting index i; Get(i) must return item i for every i; Get(n) must not
 // return an item. All of it is checked on the list built from the slice and on the list re-opened
@@ -242,7 +242,7 @@ func c22Class(n int) string {
 }
 
 func TestC22(t *testing.T) {
-	rec := ev.New("C22", "lists of n real v3 transactions (distinct nonce/timestamp) and of n real receipts (distinct stepUsed, receipt versions 1 and 2) for the boundary sizes {0,1,2,127,128,129,255,256,257,32767,32768,32769,65535,65536} plus rapid-drawn sizes; each list is checked as built and after Flush + re-open from hash: full iteration (order, count, reported index) and Get(i) for every i; non-trivial = n >= 129 (index keys of different encoded lengths in one list); distinct by (kind, n)")
+	rec := ev.New("C22", "lists of n real v3 transactions (distinct nonce) and of n real receipts (distinct stepUsed, receipt versions 1 and 2) for the boundary sizes {0,1,2,127,128,129,255,256,257,32767,32768,32769,65535,65536} plus rapid-drawn sizes; each list is checked as built and after Flush + re-open from hash: full iteration (order, count, reported index) and Get(i) for every i; non-trivial = n >= 129 (index keys of different encoded lengths in one list); distinct by (kind, n)")
 	defer rec.Flush(t)
 
 	maxN := 65536
